@@ -84,7 +84,7 @@ prop(
 
 prop(
     'C01',
-    ['G1', 'G2', 'G3', 'G4', 'G5', 'G6', 'G7', 'F1', 'D4', 'T1', 'S4', 'X12'],
+    ['G1', 'G2', 'G3', 'G4', 'G5', 'G6', 'G7', 'F1', 'D4', 'T1', 'S4', 'X12', 'X6'],
     explanation=(
         'Grammar model (both embedded grammars and both .lark assemblies compiled by lark; rule list, terminal list, LALR '
         'states inspected) + flow extraction of all transformer callbacks. G1 the two copies compile to the same rules/'
@@ -167,7 +167,7 @@ prop(
 
 prop(
     'C07',
-    ['X4', 'X3a', 'X1', 'X13', 'X14', 'X6', 'A3r', 'S6', 'G6', 'G7', 'G3', 'X5', 'N3'],
+    ['X4', 'X3a', 'X1', 'X13', 'X14', 'X15', 'X6', 'A3r', 'S6', 'G6', 'G7', 'G3', 'X5', 'N3'],
     explanation=(
         'X4: the lark call sits in a try whose handlers cover UnexpectedToken/UnexpectedCharacters, each handler raises '
         'HplSyntaxError built only from attributes every handled exception class defines (read from lark\'s own source); '
@@ -250,7 +250,7 @@ prop(
 
 prop(
     'C14',
-    ['X1', 'X2', 'X12', 'X13', 'X14', 'X3b', 'X3c', 'X10', 'R10', 'R12', 'S3', 'R2', 'T2', 'X5r', 'T4'],
+    ['X1', 'X2', 'X12', 'X13', 'X14', 'X3b', 'X3c', 'X10', 'R10', 'R12', 'R14', 'S3', 'R2', 'T2', 'X5r', 'T4'],
     explanation=(
         'X1 definite assignment over all 614 functions; X2 call.arguments[k] vs the smallest overload of the function the '
         'branch dispatches on; X3b explicit raises of rewrite.py are the documented ones; X5r assert census of everything '
@@ -263,6 +263,7 @@ prop(
         'type out; a wrongly typed fold makes the rebuilt parent raise); R12 the simplifier does not assert the literal-last normal form for non-commutative operators (`(1 - x) = 1` raised AssertionError). Not decided: TypeError from re-validation of operand types (assumed), '
         'the remaining shape assertions.'
         ' X12: no function with a declared (non-Optional) result falls off the end of its body.'
+        ' R14: an operator node that a simplifier function builds over a literal it has just made is returned through the simplifier (reaching definitions by line order and common loop): otherwise x + 0 / x * 1 survives and the value assertion in _obviously_different (`operand2.value != 0  # due to simplification`) fails on `sum({@v}) = @v` (seeded C14d4).'
         ' X13: an attribute that only some node classes have is read only where the path (or the earlier operands of the same boolean expression) has narrowed the value to classes that all have it - by is_<kind> flags (kind table), isinstance tests / asserts, arity and operator tests; otherwise a valid input of another kind raises AttributeError (614 functions, no hit on the current tree). X14: every kind assertion (assert isinstance(x, C), assert x.is_<kind>) is implied by the kind tests the path has made on x, so it cannot fail on a well-formed input.'
     ),
 )
